@@ -184,6 +184,16 @@ func WorkerMain(t *testing.T, worlds map[string]World, selftest func() error) {
 			st := NewStats()
 			st.EnableLog()
 			js, _ := json.Marshal(sc)
+			// a scenario must survive its own replay format unchanged
+			if back, err := w.Decode(js); err != nil {
+				res.Error = fmt.Sprintf("run %d: scenario does not decode from its own JSON: %v", i, err)
+				write()
+				return
+			} else if js2, _ := json.Marshal(back); string(js2) != string(js) {
+				res.Error = fmt.Sprintf("run %d: scenario changes when written to and read from a replay file:\n%s\n%s", i, Trunc(string(js), 600), Trunc(string(js2), 600))
+				write()
+				return
+			}
 			vs := SafeRun(env, sc, st)
 			h := NewHash().Bytes(js)
 			for _, v := range vs {
